@@ -430,10 +430,13 @@ def sweep(jobs=16, only=None):
                 print(done, file=sys.stderr)
 
 
-def recheck(jobs=16):
-    """Re-run only the checks (no suite) on the mutants that were silent and passed the suite."""
+def recheck(jobs=16, everything=False):
+    """Re-run only the checks (no suite) on the mutants that were silent and passed the suite (or on all of them)."""
     rs = load()
     todo = {r['id'] for r in rs if r['exit'] != 1 and r.get('suite', 'pass') == 'pass'} | {r['id'] for r in rs if r['exit'] == 2}
+    if everything:
+        todo = {r['id'] for r in rs}
+    before = {r['id']: r['exit'] for r in rs}
     ms = {m['id']: m for m in gen()}
     out = {}
     with cf.ThreadPoolExecutor(jobs) as ex:
@@ -446,6 +449,9 @@ def recheck(jobs=16):
                 n = out[r['id']]
                 r['exit'], r['fired'], r['errors'] = n['exit'], n['fired'], n['errors']
             f.write(json.dumps(r) + '\n')
+    for r in rs:
+        if before[r['id']] != r['exit']:
+            print('changed', r['id'], before[r['id']], '->', r['exit'], r['op'], r.get('suite'), r['func'], r['line'])
 
 
 def load():
@@ -496,7 +502,7 @@ if __name__ == '__main__':
         only = set(x for x in a[1:] if x.startswith('M')) or None
         sweep(jobs, only)
     elif a[0] == 'recheck':
-        recheck(int(a[a.index('--jobs') + 1]) if '--jobs' in a else 16)
+        recheck(int(a[a.index('--jobs') + 1]) if '--jobs' in a else 16, everything='--all' in a)
     elif a[0] == 'report':
         report()
     elif a[0] == 'show':
